@@ -6,6 +6,8 @@ import Mathlib.Tactic.Ring
 import Mathlib.Tactic.Linarith
 import Mathlib.Tactic.FieldSimp
 import Mathlib.Algebra.BigOperators.Field
+import Mathlib.Algebra.Order.Field.Basic
+import Mathlib.Algebra.Order.AbsoluteValue.Basic
 
 /-! Helper lemmas for C06: `sumFin` is the `Finset` sum, homogeneous matrices compose like affine maps. -/
 set_option linter.unusedSimpArgs false
@@ -237,5 +239,37 @@ theorem push2_signedPerm_box {d : Nat} {R : Mat d Int} {q : Fin d → Fin d} {s 
     have hq := hn i
     simp only [push2, matVec_signedPerm h]
     rcases h.1 i with h1 | h1 <;> simp only [h1, hq] <;> norm_num <;> ring
+
+
+/-! ## the noise clean-up of `Density.rigid_transform` -/
+section clean
+set_option linter.unusedSectionVars false
+variable {K : Type} [Field K] [LinearOrder K] [IsStrictOrderedRing K]
+
+theorem absV_eq_abs (v : K) : absV v = |v| := by
+  simp [absV, abs_eq_max_neg]
+
+theorem absMax_nonneg (l : List K) : 0 ≤ absMax l := by
+  induction l with
+  | nil => simp [absMax]
+  | cons v l ih => simp only [absMax, List.foldr_cons]; exact le_max_of_le_right ih
+
+theorem absV_le_absMax {l : List K} {v : K} (h : v ∈ l) : absV v ≤ absMax l := by
+  induction l with
+  | nil => cases h
+  | cons w l ih =>
+      simp only [absMax, List.foldr_cons]
+      rcases List.mem_cons.mp h with rfl | h'
+      · exact le_max_left _ _
+      · exact le_max_of_le_right (ih h')
+
+theorem absMax_scale (s : K) (hs : 0 ≤ s) (l : List K) : absMax (l.map (s * ·)) = s * absMax l := by
+  induction l with
+  | nil => simp [absMax]
+  | cons v l ih =>
+      simp only [absMax, List.map_cons, List.foldr_cons] at ih ⊢
+      rw [ih, absV_eq_abs, absV_eq_abs, abs_mul, abs_of_nonneg hs, mul_max_of_nonneg _ _ hs]
+
+end clean
 
 end Pm.C06
